@@ -1074,6 +1074,11 @@ class Invariance:
     def scalar_weight0(self, expr, why=None):
         """True / False (with self.reason) ; raises Decline if undecidable."""
         expr = sp.sympify(expr)
+        if isinstance(expr, (sp.logic.boolalg.Boolean, sp.core.relational.Relational)) and not expr.is_Symbol:
+            # a comparison / Boolean combination is invariant when each of its operands is
+            return all(self.scalar_weight0(a_) for a_ in expr.args)
+        if isinstance(expr, sp.Piecewise):
+            return all(self.scalar_weight0(v_) and self.scalar_weight0(c_) for v_, c_ in expr.args if c_ is not sp.true) and all(self.scalar_weight0(v_) for v_, c_ in expr.args if c_ is sp.true)
         for a in expr.free_symbols:
             if a in self.ev.local_syms:
                 did = self.ev.local_syms[a]
